@@ -7,7 +7,7 @@
 -/
 import AITB.Props.C03Basic
 
-namespace AITB.POMDP
+namespace AITB.POMDP3
 open AITB.MDP
 
 /-- `V ≥ H V` on unnormalised beliefs -/
@@ -130,4 +130,4 @@ theorem iterH_superSol (m : POMDP) (hv : Valid m) (V0 : (Nat → Rat) → Rat) (
 theorem iterH_succ_le (m : POMDP) (hv : Valid m) (V0 : (Nat → Rat) → Rat) (h0 : SuperSol m V0) (k : Nat) (x : Nat → Rat) (hx : NN x) :
     iterH m V0 (k+1) x ≤ iterH m V0 k x := iterH_superSol m hv V0 h0 k x hx
 
-end AITB.POMDP
+end AITB.POMDP3
